@@ -1174,12 +1174,20 @@ class Container:
                 list(convert_one(substance, total_quantity_unit) for substance in solute + [solvent]))
             b[index] = total_quantity
 
+        # bring every row to the same scale: the rows mix units (g per U next to g per mol), and an unscaled system
+        # loses the digits the consistency test below relies on
+        row_scale = numpy.abs(a).max(axis=1)
+        row_scale[row_scale == 0] = 1
+        a = a / row_scale[:, None]
+        b = b / row_scale
+
         xs = numpy.linalg.solve(a[:n + 1], b[:n + 1])
         if any(x <= 0 for x in xs):
             raise ValueError("Solution is impossible to create.")
 
         for i in range(len(a)):
-            if abs(sum(a[i] * xs) - b[i]) > 1e-6:
+            # every stated value must hold, relative to the size of the quantities involved
+            if abs(sum(a[i] * xs) - b[i]) > 1e-6 * max(abs(b[i]), sum(abs(a[i] * xs))):
                 raise ValueError("Solution is impossible to create.")
 
         initial_contents = list((substance, f"{x} {'U' if substance.is_enzyme() else 'mol'}") for x, substance in
